@@ -96,7 +96,7 @@ def _guards_of(fn_node, target_node):
     return out
 
 
-def check(ctx, rep: Report):
+def _check_main(ctx, rep: Report):
     rep.extra["exhaustive"] = True
     # ---- REG
     rep.rules["C16.REG"] = "decision table of register_method"
@@ -362,3 +362,12 @@ def check(ctx, rep: Report):
     rep.oblige("C16.SING", "bootstrap collision loop", not bad, "; ".join(bad))
     for b in sorted(set(bad)):
         rep.violate(Violation("C16.SING", f"C16.SING|{b[:70]}", f"spec_class.bootstrap: {b}", f"{bs.module.relpath}:{loops[0].lineno}" if loops else "", "spec_class.bootstrap"))
+
+
+def check(ctx, rep):
+    from . import metarules, shared
+    _check_main(ctx, rep)
+    metarules.attr_spec_fresh(ctx, rep, "C16.SPEC")
+    metarules.singular_cache(ctx, rep, "C16.CACHE")
+    shared.own_namespace_lookups(ctx, rep, "C16.NS")
+    shared.unused_params(ctx, rep, "C16.PARAM", ["spec_classes.spec_class", "spec_classes.utils.naming"])
